@@ -25,13 +25,20 @@ func (r *RelationTuple) String() string {
 	sb.WriteString(r.Relation)
 	sb.WriteRune('@')
 
+	var subject string
 	if r.SubjectID != nil {
-		sb.WriteString(*r.SubjectID)
+		subject = *r.SubjectID
 	} else if r.SubjectSet != nil {
-		sb.WriteString(r.SubjectSet.String())
+		subject = r.SubjectSet.String()
 	} else {
-		sb.WriteString("<ERROR: no subject>")
+		subject = "<ERROR: no subject>"
 	}
+	// FromString removes one optional pair of brackets around the subject, so
+	// a subject that itself starts and ends with a bracket is wrapped in one.
+	if len(subject) >= 2 && strings.HasPrefix(subject, "(") && strings.HasSuffix(subject, ")") {
+		subject = "(" + subject + ")"
+	}
+	sb.WriteString(subject)
 	return sb.String()
 }
 
